@@ -301,6 +301,53 @@ static void *sb_b (void *a) {
 	return NULL;
 }
 
+/* ---- trynb: "trylock never blocks".  Thread 0 (holder) takes the lock and keeps it until the pollers' count of RETURNED
+ * trylock calls has advanced by 2 per poller — which the property guarantees without any timing assumption; if the count
+ * stalls for 6 s while a poller is inside a trylock call, that call is blocked on a held lock.  Then the holder unlocks
+ * (the stuck call returns) and the run goes on.  Works for the spinlock (lock kind 0) and the mutex (kind 1). */
+static int nb_kind;
+static volatile long nb_returned;      /* trylock calls that returned, all pollers (harness atomics) */
+static volatile int nb_inside;         /* pollers currently inside a trylock call */
+static volatile int nb_stop;
+static long nb_blocked, nb_cycles, nb_both;
+static volatile int nb_held;
+
+static void *w_trynb (void *a) {
+	int me = (int) (intptr_t) a;
+	pthread_barrier_wait (&bar);
+	if (me == 0) {
+		long c;
+		for (c = 0; c < ITERS && now_s () < deadline; c++) {
+			if (nb_kind) p_mutex_lock (MX); else p_spinlock_lock (SL);
+			__atomic_store_n (&nb_held, 1, __ATOMIC_SEQ_CST);
+			long start = __atomic_load_n (&nb_returned, __ATOMIC_SEQ_CST);
+			double t0 = now_s ();
+			while (__atomic_load_n (&nb_returned, __ATOMIC_SEQ_CST) < start + 2 * (N - 1)) {
+				if (now_s () - t0 > 6.0) { if (__atomic_load_n (&nb_inside, __ATOMIC_SEQ_CST) > 0) nb_blocked++; break; }
+			}
+			__atomic_store_n (&nb_held, 0, __ATOMIC_SEQ_CST);
+			if (nb_kind) p_mutex_unlock (MX); else p_spinlock_unlock (SL);
+			if (nb_blocked) break;
+			/* leave the lock free for a moment so that pollers also succeed (and race with the next acquisition) */
+			for (volatile int k = 0; k < 200 + (int) (c % 7) * 100; k++) ;
+		}
+		nb_cycles = c;
+		__atomic_store_n (&nb_stop, 1, __ATOMIC_SEQ_CST);
+	} else {
+		while (!__atomic_load_n (&nb_stop, __ATOMIC_SEQ_CST)) {
+			__atomic_fetch_add (&nb_inside, 1, __ATOMIC_SEQ_CST);
+			pboolean got = nb_kind ? p_mutex_trylock (MX) : p_spinlock_trylock (SL);
+			__atomic_fetch_sub (&nb_inside, 1, __ATOMIC_SEQ_CST);
+			if (got) {
+				if (__atomic_load_n (&nb_held, __ATOMIC_SEQ_CST)) { pthread_mutex_lock (&agg); nb_both++; pthread_mutex_unlock (&agg); }
+				if (nb_kind) p_mutex_unlock (MX); else p_spinlock_unlock (SL);
+			}
+			__atomic_fetch_add (&nb_returned, 1, __ATOMIC_SEQ_CST);
+		}
+	}
+	return NULL;
+}
+
 static void run_threads (void *(*f) (void *)) {
 	pthread_t *th = malloc (sizeof (pthread_t) * (size_t) N);
 	int i;
@@ -319,7 +366,12 @@ int main (int argc, char **argv) {
 	p_mem_init ();
 	p_atomic_thread_init ();
 	deadline = now_s () + (getenv ("STRESS_MAX_MS") ? atof (getenv ("STRESS_MAX_MS")) : 20000.0) / 1000.0;
-	if (!strcmp (mode, "counter")) {
+	if (!strcmp (mode, "trynb") || !strcmp (mode, "mtrynb")) {
+		nb_kind = mode[0] == 'm';
+		if (nb_kind) MX = p_mutex_new (); else SL = p_spinlock_new ();
+		run_threads (w_trynb);
+		printf ("trynb blocked %ld both %ld cycles %ld\n", nb_blocked, nb_both, nb_cycles);
+	} else if (!strcmp (mode, "counter")) {
 		SL = p_spinlock_new ();
 		run_threads (w_counter);
 		printf ("counter %ld expected %ld\n", counter, done_iters);
